@@ -2,7 +2,7 @@
 Decided: the lock / hand-over discipline every schedule relies on (not linearizability itself)."""
 import re
 import core, lib
-from core import call_matches, op_place, op_local, backward_slice
+from core import call_matches, call_names, op_place, op_local, backward_slice
 from props import shared
 
 LEVEL = 'other'
@@ -114,6 +114,14 @@ def key_tail_check(ctx, p):
         if not g:
             continue
         gets = g.call_sites('index::IndexTable::get')
+        if not gets:
+            # a wrapper (`contains` = `find(..).is_some()`): the scan lives in the helper it calls
+            for _bi, t in g.calls():
+                for nm in call_names(t):
+                    h = F.body(nm)
+                    if h is not None and h.path.startswith('column::HashColumn::') and h.call_sites('index::IndexTable::get'):
+                        g = h
+            gets = g.call_sites('index::IndexTable::get')
         inloop = [s for s in gets if s in g.reaches(s)]
         ok = len(gets) == 2 and len(inloop) == 1
         det = 'IndexTable::get sites %s, in-loop %s' % (gets, inloop)
@@ -129,6 +137,8 @@ def run(ctx):
     shared.atomic_publication(ctx, '1')
     shared.handover_order(ctx, '2')
     shared.overlay_slot_addressed_by_log_index(ctx, '10')   # shadowing needs the right slot: the overlay of a table lives at its log_index()
+    shared.index_entry_purged_from_all_generations(ctx, '11')   # a removed key is not served through a copy of its entry in another index generation
+    shared.value_read_one_guard(ctx, '12', callers=['db::DbInner::get', 'column::HashColumn::get_size'])   # a point read never returns a mix of two values
     shared.lookup_sees_one_queue_state(ctx, '9')    # a reader concurrent with the end of an index growth still finds every present key
     shared.deferral_keeps_commit_order(ctx, '2')    # commit order also holds when a tree dereference in the same transaction is postponed
     shared.wal_confinement(ctx, '3')
